@@ -754,6 +754,19 @@ def case_jumps_backward_or_into_chain(case) -> bool:
     return False
 
 
+def case_op_is_jump_target(case) -> bool:
+    """Known finding F-C02-13: a Case* op that some op jumps to, i.e. a case chain entered without passing its switch
+    header (the language has no syntax for that; the structuring passes assume that cases are reached from their header)."""
+    for r in case["routines"]:
+        for op in r["ops"]:
+            if op[2] is not None:
+                tr, ti = op[2]
+                tops = case["routines"][tr]["ops"]
+                if 0 <= ti < len(tops) and tops[ti][0] in T.OPS_CASE:
+                    return True
+    return False
+
+
 def call_target_only_reachable_by_call(case) -> bool:
     """Known finding F-C02-7: the writers never follow the taken edge of a call, so code that is reached only
     that way is not written. Mirrors the decompiler's own reachability: with calls present flow is taken to
